@@ -179,6 +179,30 @@ def tlc(ctx, module, cfg=None, workers=8, env_extra=None, timeout=3600, simulate
     return res
 
 
+def apalache(ctx, module, inv, timeout=900):
+    """Symbolic (SMT) check of a state invariant over the initial states with Apalache: spec/apalache/<module>.tla.
+    Runs on a private copy so that no output lands in /verif/spec."""
+    src = os.path.join(SPEC, "apalache", module + ".tla")
+    d = ctx.path("apalache-" + module)
+    os.makedirs(d, exist_ok=True)
+    shutil.copy(src, d)
+    t = time.time()
+    try:
+        r = subprocess.run(["apalache-mc", "check", "--init=Init", "--next=Next", "--inv=" + inv, "--length=0",
+                            "--out-dir=" + os.path.join(d, "out"), module + ".tla"], cwd=d, stdout=subprocess.PIPE,
+                           stderr=subprocess.STDOUT, text=True, timeout=timeout)
+    except subprocess.TimeoutExpired:
+        raise ToolError("Apalache timed out on " + module)
+    ok = "The outcome is: NoError" in r.stdout
+    log("[apalache] %s %s: %s  %.1fs" % (module, inv, "NoError" if ok else "ERROR", time.time() - t))
+    ctx.extra.setdefault("symbolic_checks", []).append({"tool": "apalache-mc 0.58", "module": module, "invariant": inv,
+                                                        "outcome": "NoError" if ok else "Error", "wall_s": round(time.time() - t, 1)})
+    if not ok:
+        log(r.stdout[-3000:])
+        raise ToolError("Apalache reports an error on %s (the specification itself is inconsistent)" % module)
+    shutil.rmtree(d, ignore_errors=True)
+
+
 def tlc_json_lines(out, tag=None):
     """TLC prints PrintT(ToJson(x)) as a TLA+ string literal, one per line; decode those."""
     res = []
